@@ -138,8 +138,8 @@ func (e *Engine) checkObligation(st *State, kind, id, site string, bad *Term) {
 		ob = &Obligation{ID: id, Kind: kind, Site: site, Result: "holds", Harness: e.harness}
 		e.Obls = append(e.Obls, ob)
 	}
-	if ob.Result == "violated" {
-		return // one counterexample per obligation is enough
+	if ob.Result == "violated" && (len(e.prefs) == 0 || ob.Tries > 24) {
+		return // one counterexample per obligation is enough (unless a more preferred one may exist)
 	}
 	bad = st.Simp(bad)
 	if bad.IsFalse() {
@@ -158,12 +158,20 @@ func (e *Engine) checkObligation(st *State, kind, id, site string, bad *Term) {
 	}
 	m, err := e.extractModel(as)
 	if err != nil {
-		ob.Result = "inconclusive"
-		ob.Note = "model extraction failed: " + err.Error()
+		if ob.Result != "violated" {
+			ob.Result = "inconclusive"
+			ob.Note = "model extraction failed: " + err.Error()
+		}
+		return
+	}
+	score := e.lastPrefScore
+	ob.Tries++
+	if ob.Result == "violated" && score <= ob.PrefScore {
 		return
 	}
 	ob.Result = "violated"
 	ob.Model = m
+	ob.PrefScore = score
 	e.dumpQuery(key, as)
 }
 
@@ -201,6 +209,23 @@ func intrNdCover(e *Engine, c *CallCtx) []Outcome {
 
 // extractModel reads the nondet assignment of the currently open model, preferring short buffers.
 func (e *Engine) extractModel(as []*Term) (map[string]interface{}, error) {
+	// greedily honour the harness's soft preferences (models that replay natively more often)
+	if len(e.prefs) > 0 {
+		kept := append([]*Term(nil), as...)
+		e.lastPrefScore = 0
+		for i, p := range e.prefs {
+			if e.solver.Check(append(append([]*Term(nil), kept...), p)) == Sat {
+				kept = append(kept, p)
+				if i < 30 {
+					e.lastPrefScore += 1 << uint(30-i) // earlier preferences weigh more (lexicographic)
+				}
+			}
+		}
+		as = kept
+		if e.solver.Check(as) != Sat {
+			return nil, fmt.Errorf("model vanished")
+		}
+	}
 	var lens []*Term
 	for _, n := range e.ndOrder {
 		v := e.nd[n]
